@@ -81,8 +81,9 @@ def correspondence(ctx):
     import term_check
     tst, tdis = term_check.run(ctx.seed * 163 + 5, 150 if ctx.tier == "quick" else 2000, MODEL)
     sst, sdis = term_check.run_symbols(ctx.seed * 167 + 7, 150 if ctx.tier == "quick" else 1500, MODEL)
-    dis += tdis + sdis
-    return {"interval_sequences": tot, "element_condition_programs": len(texts), "equations": eq, "terms": tst, "symbols": sst,
+    cst, cdis = term_check.run_conv(ctx.seed * 173 + 9, 300 if ctx.tier == "quick" else 4000, MODEL)
+    dis += tdis + sdis + cdis
+    return {"interval_sequences": tot, "element_condition_programs": len(texts), "equations": eq, "terms": tst, "symbols": sst, "term_conversion": cst,
             "sample": {"program": texts[0]}}, dis
 
 # ---- schema vs instantiation
@@ -120,8 +121,10 @@ def elem_literal(r):
     and to the documented reading: the conjunction over the instances y of `C(y) -> F(y)` (written with `->` inside one element)"""
     F = r.choice(["p(Y)", "> p(Y)", "q(1)", "> q(1)", "q(1) | p(X)", "p(Y) >? q(1)", "~ q(1)", "<? q(1)", "p(X)"])
     conds = r.choice([["p(Y)"], ["not p(Y)"], ["p(Y)", "d(Y)"], ["d(Y)"], ["not q(Y)", "d(Y)"], ["p(Y)", "not q(1)"]])
-    if not any(c.startswith(("p(Y)", "d(Y)")) for c in conds):
-        conds.append("d(Y)")                      # safety: Y must be bound by a positive literal
+    if "d(Y)" not in conds:
+        # Y ranges over d(1..2) only: rule heads such as p(X+1) extend the domain of p beyond the two instances written out in
+        # the reading (a false alarm of the thorough tier, 2026-09-30: p(3) from `{ p((X;X+1)) }` made `: p(Y)` a third instance)
+        conds.append("d(Y)")
     sign = r.choice(["not ", "not not "])
     schema = "%s&tel { %s : %s }" % (sign, F, ", ".join(conds))
     def inst(y):
@@ -207,8 +210,8 @@ def _chunk(args):
         extra = r.choice(["", "#show p/1.\n#show q/1.\n#show -p/1.\n", "#external x(X) : d(X).\n"])
         schema = base + extra + "\n".join("#program %s. %s" % (p, expand(t, 0)) for p, t in rules)
         inst = base + extra + "\n".join("#program %s. %s %s" % (p, instantiate(expand(t, 1), 1), instantiate(expand(t, 1), 2)) for p, t in rules)
-        a = oracles.impl_models(schema, H, limit=60, dedup=True)
-        b = oracles.impl_models(inst, H, limit=60, dedup=True)
+        a = oracles.impl_models(schema, H, limit=20, dedup=True)
+        b = oracles.impl_models(inst, H, limit=20, dedup=True)
         cnt += 1
         if a[0] == "err" or b[0] == "err":
             ca = a[1] if a[0] == "err" else "ok"
